@@ -866,6 +866,7 @@ def plan(prop, tier, seed, known):
             jobs.append(seq_job("reclaim%d" % i, seed * 100 + i, "data,recycle,dirs,mix", 4 if q else 8, 200 if q else 400, av,
                                 disk=8000, extra=["-snapeach", "7", "-deleteall"]))
         jobs.append(probe_job(prop, av))
+        jobs.append({"name": "exhaust", "module": "ExhaustTrace.tla", "cfg": "ExhaustTrace.cfg", "driver": ["exhaust", "-seed", str(seed)]})
         jobs += design_jobs("Shrink", ["Shrink"], ["Shrink_big"], [("Shrink_reset", "NoOrphan"), ("Shrink_noresult", "Reclaimed")], q)
         jobs += design_jobs("AllocTxn", ["AllocTxn"], [], [("AllocTxn_byte", "NeverTwice")], q)
         jobs += design_jobs("BlockMap", ["BlockMap"], ["BlockMap_big"], [("BlockMap_noundo", "Covered")], q)
@@ -887,6 +888,8 @@ def plan(prop, tier, seed, known):
             jobs.append(seq_job("full%d" % i, seed * 100 + i, "full", 4 if q else 8, 150 if q else 300, av,
                                 dumpeach=25, extra=["-snapeach", "1", "-disks", "1600,1700,1900,2300"]))
         jobs.append(probe_job(prop, av))
+        # the inode table filled to the last number: requests that need one must fail without a trace
+        jobs.append({"name": "exhaust", "module": "ExhaustTrace.tla", "cfg": "ExhaustTrace.cfg", "driver": ["exhaust", "-seed", str(seed)]})
     elif prop == "C01":
         n = 6 if q else 60
         for i in range(n):
